@@ -329,7 +329,7 @@ struct Exec
 struct UdpEngine : Engine
 {
 	std::vector<Op> menu; int D = 4; bool thorough = false;
-	std::vector<std::vector<int>> unit_prefix; uint64_t drain_units = 20, args_units = 1;
+	std::vector<std::vector<int>> unit_prefix; uint64_t drain_units = 26, args_units = 1;
 	uint64_t units(Args const& a) override
 	{
 		thorough = a.thorough(); menu = menu_ops(false); D = thorough ? 6 : 5;
@@ -354,12 +354,15 @@ struct UdpEngine : Engine
 	{
 		// (send size s; advance 40ms; receive with buffer b) x n
 		static int const S[] = { 1, 100, 1472, 30000, 65535 }; static int const B[] = { 1, 100, 4096, 70000 };
-		int s = S[k / 4], b = B[k % 4]; int n = thorough ? 12 : 6;
+		int s = S[(k % 20) / 4], b = B[k % 4]; int n = thorough ? 12 : 6; int rcvbuf = 0;
+		if (k >= 20) { // long histories: the receive buffer is 256 KiB whatever the option says, so a drift of d bytes per datagram in the socket's account shows after 262144 / d rounds
+			static int const S2[] = { 1, 100, 1472 }; static int const B2[] = { 100, 4096 };
+			s = S2[(k - 20) / 2]; b = B2[(k - 20) % 2]; n = thorough ? 280000 : 70000; }
 		if (!ctx.next_case()) return;
-		Case c; c.set("family", "drain").set("size", s).set("buf", b).set("n", n);
+		Case c; c.set("family", "drain").set("size", s).set("buf", b).set("n", n).set("rcvbuf", rcvbuf);
 		ctx.begin(c);
 		std::vector<std::string> fails; std::string tr;
-		drain(s, b, n, fails, tr, &ctx);
+		drain(s, b, n, fails, tr, &ctx, rcvbuf);
 		auto clause_of = [](std::string const& x) { return x.substr(0, x.find(':')); };
 		for (auto& f : fails) add_violation(ctx, clause_of(f), c, f + " | " + tr, "drain/" + clause_of(f));
 		ctx.R.counters["drain_rounds"] += uint64_t(n);
@@ -423,7 +426,7 @@ struct UdpEngine : Engine
 			ctx.end();
 		}
 	}
-	static void drain(int size, int buf, int n, std::vector<std::string>& fails, std::string& tr, Ctx* ctx)
+	static void drain(int size, int buf, int n, std::vector<std::string>& fails, std::string& tr, Ctx* ctx, int rcvbuf = 0)
 	{
 		World w;
 		w.on_build = [](World& ww, sim::simulation&) { auto q = ww.queue(0, ms(1), 0); ww.chan = [q](ip::address, ip::address) { return World::hops_t{ q }; }; };
@@ -442,7 +445,7 @@ struct UdpEngine : Engine
 			r.async_receive_from(asio::buffer(rb), from, [&](error_code const& e2, std::size_t k2) { done = true; rec = e2; rn = k2; });
 			sim.run();
 			if (ctx) ctx->R.transitions += 2;
-			tr += fmt("round %d: sent %d, read %zu %s; ", i, size, rn, done ? ecs(rec).c_str() : "PENDING");
+			if (i < 8 || !done) tr += fmt("round %d: sent %d, read %zu %s; ", i, size, rn, done ? ecs(rec).c_str() : "PENDING");
 			if (!done) { fails.push_back(fmt("lost_at_socket: round %d of (send %d bytes; read into %d bytes): the reader keeps its queue drained, yet datagram #%d never arrived (queue account %d bytes, %zu queued)", i, size, buf, i, r.m_queue_size, r.m_incoming_queue.size())); error_code ig; r.cancel(ig); sim.run(); break; }
 			if (rec) { fails.push_back(fmt("recv_error: round %d: %s", i, ecs(rec).c_str())); break; }
 			if (rn != size_t(std::min(size, buf)) || std::string(rb.data(), rn) != pl.substr(0, rn)) { fails.push_back(fmt("payload: round %d: read %zu bytes, content %s", i, rn, std::string(rb.data(), rn) == pl.substr(0, rn) ? "ok" : "differs")); break; }
@@ -491,7 +494,7 @@ struct UdpEngine : Engine
 		units(a);
 		std::vector<std::string> fails; std::vector<std::string> log;
 		if (c.str("family") == "args") { std::string tr; args_case(int(c.num("total")), int(c.num("shape")), c.num("df") != 0, fails, tr); std::fprintf(stdout, "%s\n", tr.c_str()); }
-		else if (c.str("family") == "drain") { std::string tr; drain(int(c.num("size")), int(c.num("buf")), int(c.num("n")), fails, tr, nullptr); std::fprintf(stdout, "%s\n", tr.c_str()); }
+		else if (c.str("family") == "drain") { std::string tr; drain(int(c.num("size")), int(c.num("buf")), int(c.num("n")), fails, tr, nullptr, int(c.num("rcvbuf"))); std::fprintf(stdout, "%s\n", tr.c_str()); }
 		else { D = int(c.num("depth", D)); Chooser ch; ch.reset(c.ints("choices")); Exec e(menu, D, &ch, nullptr); e.run(); fails = e.fails; for (auto& l : e.log) std::fprintf(stdout, "%s\n", l.c_str()); }
 		for (auto& f : fails) std::fprintf(stdout, "VIOLATION %s\n", f.c_str());
 		std::fprintf(stdout, fails.empty() ? "=> ok\n" : "=> %zu violation(s)\n", fails.size());
